@@ -36,6 +36,9 @@ func c06Universe(r *core.Rand, limits []uint32) []inputs.Input {
 	// limit-sensitive members: a NUL just beyond / before the candidate limits
 	for i, n := 0, r.Range(1, 3); i < n; i++ {
 		l := int(limits[r.Intn(len(limits))])
+		if l > 100000 {
+			continue // a limit far above every input: nothing to place around it
+		}
 		p := l - 1 + r.Intn(3)
 		if p < 0 {
 			p = 2
@@ -83,6 +86,9 @@ func (c *c06) Plan(seed uint64, tier string, worker, workers, idx int) *Plan {
 	}
 	nLimits := r.Range(2, 5)
 	limits := pool[:nLimits]
+	if r.Chance(1, 8) {
+		limits[r.Intn(nLimits)] = bigLimit(r)
+	}
 	p := &Plan{Prop: "C06", Limit0: limits[0], MaxSteps: 400000, Pool: []string{"adversarial", "steal", "lifo"}[r.Intn(3)]}
 	p.Sched = core.SchedSpec{Kind: []string{"random", "random", "pct", "pct", "rtc"}[r.Intn(5)], D: r.Range(1, 3), Preempt: 50 + r.Intn(400), Horizon: r.Range(60, 400)}
 	nextLimit := 1
@@ -100,6 +106,9 @@ func (c *c06) Plan(seed uint64, tier string, worker, workers, idx int) *Plan {
 	}
 	ladder := r.Chance(1, 3)
 	g.charsetNamesOn = !ladder && r.Chance(1, 4)
+	if !ladder && r.Chance(1, 5) {
+		g.setCollide()
+	}
 	for i, n := 0, r.Intn(3); i < n; i++ {
 		p.Pre = append(p.Pre, Op{Kind: "extend", Ext: g.ext()})
 	}
@@ -162,7 +171,7 @@ func (c *c06) Plan(seed uint64, tier string, worker, workers, idx int) *Plan {
 				op = Op{Kind: "lookup"}
 				if len(g.made) > 0 && r.Chance(3, 4) {
 					e := g.made[r.Intn(len(g.made))]
-					names := lookupNames(e)
+					names := g.lookupNames(e)
 					if len(names) == 0 {
 						names = []string{"text/csv"}
 						e = nil
@@ -170,9 +179,6 @@ func (c *c06) Plan(seed uint64, tier string, worker, workers, idx int) *Plan {
 					op.Name, op.Ext = names[r.Intn(len(names))], e
 				} else {
 					op.Name = parents[2+r.Intn(len(parents)-2)].Name
-					if g.charsetNamesOn && lib.IsCharsetName(op.Name) {
-						op.Name = "text/csv"
-					}
 				}
 			case e == 4:
 				if nextLimit < len(limits) {
@@ -257,7 +263,7 @@ func c06Ladder(r *core.Rand, p *Plan, g *extGen, universe []inputs.Input) {
 				op.Del = randDelivery(r, len(in.Bytes()), 0)
 			default:
 				e := g.made[r.Intn(len(g.made))]
-				names := lookupNames(e)
+				names := g.lookupNames(e)
 				op = Op{Kind: "lookup", Name: names[r.Intn(len(names))], Ext: e}
 			}
 			ops = append(ops, op)
@@ -386,8 +392,12 @@ func (m *c06model) step(st, in, out interface{}) (bool, interface{}) {
 		return ok, s
 	case "parent-missing":
 		// Lookup(parent) returned nil inside an Extend call
-		want, _ := model.Lookup(i.op.Ext.Parent, m.extList(s.exts))
-		return want.Nil, s
+		for _, c := range model.Lookups(i.op.Ext.Parent, m.extList(s.exts)) {
+			if c.Res.Nil {
+				return true, s
+			}
+		}
+		return false, s
 	}
 	return false, s
 }
